@@ -107,6 +107,8 @@ def gen_port(w, cfg, platform):
             o = operand()
             if o not in ops:
                 ops.append(o)
+        if n > 1 and w.random() < 0.3 and 1 <= ops[0] <= MAXP - n:
+            ops = [ops[0] + i_ for i_ in range(n)]  # consecutive ports, listed one by one
         return ("eq", tuple(ops))
     if r < 0.68:
         n = 1
@@ -214,6 +216,8 @@ def _port_interval(port):
     op, ops = port
     if op == "eq" and len(ops) == 1:
         return ops[0], ops[0]
+    if op == "eq" and len(ops) > 1 and sorted(ops) == list(range(min(ops), max(ops) + 1)):
+        return min(ops), max(ops)  # a run of consecutive ports listed one by one
     if op == "range":
         return min(ops), max(ops)
     if op == "gt" and ops[0] < MAXP:
@@ -223,7 +227,7 @@ def _port_interval(port):
     return None
 
 
-def _spell_interval(w, lo, hi):
+def _spell_interval(w, lo, hi, platform="ios"):
     """Some spelling of the interval [lo, hi] (another operator where one exists)."""
     cands = [("range", (lo, hi))]
     if hi == MAXP and lo > 1:
@@ -232,6 +236,8 @@ def _spell_interval(w, lo, hi):
         cands += [("lt", (hi + 1,))] * 2
     if lo == hi:
         cands.append(("eq", (lo,)))
+    if platform == "ios" and 1 <= hi - lo <= 3:
+        cands += [("eq", tuple(range(lo, hi + 1)))] * 2
     return w.choice(cands)
 
 
@@ -244,7 +250,7 @@ def _narrow_port(w, port, platform):
         # one port less at one end, or the same set, in another spelling (still covered)
         lo, hi = iv
         lo, hi = w.choice([(lo + 1, hi), (lo, hi - 1), (lo, hi)])
-        return _spell_interval(w, lo, hi)
+        return _spell_interval(w, lo, hi, platform)
     if op == "range" and ops[0] < ops[1]:
         return w.choice([("range", (ops[0], ops[1] - 1)), ("eq", (ops[0],)), ("eq", (ops[1],))])
     if op == "eq" and len(ops) > 1:
@@ -261,17 +267,17 @@ def _narrow_port(w, port, platform):
     return port
 
 
-def _widen_port(w, port, platform):
+def _widen_port(w, port, platform, boundary=False):
     if port is None:
         return None
     op, ops = port
     iv = _port_interval(port)
-    if iv and w.random() < (0.85 if platform == "boundary" else 0.4):
+    if iv and w.random() < (0.85 if boundary else 0.4):
         # exactly one port more at one end, in another spelling: a near miss of the cover
         lo, hi = iv
         cands = ([(lo - 1, hi)] if lo > 1 else []) + ([(lo, hi + 1)] if hi < MAXP else [])
         if cands:
-            return _spell_interval(w, *w.choice(cands))
+            return _spell_interval(w, *w.choice(cands), platform=platform)
     if op == "eq" and len(ops) == 1:
         p = ops[0]
         return w.choice([None, ("range", (max(1, p - 1), min(MAXP, p + 1))),
@@ -347,8 +353,8 @@ def _derive_ace(w, cfg, platform, prev):
         if side in ("src", "dst"):
             spec[side] = _widen_addr(w, prev[side])
         elif side in ("sport", "dport") and prev["proto"] in (6, 17):
-            spec[side] = _widen_port(w, prev[side],
-                                     "boundary" if cfg.get("boundary_ports") else platform)
+            spec[side] = _widen_port(w, prev[side], platform,
+                                     boundary=bool(cfg.get("boundary_ports")))
         elif side == "proto" and prev["sport"] is None and prev["dport"] is None \
                 and not prev["flags"]:
             spec["proto"] = 0
